@@ -25,12 +25,18 @@ type graph struct {
 	// IOFirst: the external inputs and outputs are created before the processors (both orders are legal
 	// through the API and through bondmachine's CLI; the endpoint lists then come in a different order)
 	IOFirst bool `json:"io_first,omitempty"`
+	// Commented: the netlist is generated with the CommentedVerilog option (bondmachine -comment-verilog),
+	// which must only add comments: the netlist a tool reads after the comments are dropped is the same netlist
+	Commented bool `json:"commented,omitempty"`
 }
 
 func (g graph) String() string {
 	o := ""
 	if g.IOFirst {
 		o = " io-first"
+	}
+	if g.Commented {
+		o += " commented-verilog"
 	}
 	return fmt.Sprintf("procs=%v in=%d out=%d links=%v%s", g.Shapes, g.ExtIn, g.ExtOut, g.Links, o)
 }
@@ -111,7 +117,9 @@ func checkNetlist(g graph) (fails []netFail, notSim string) {
 	if err != nil {
 		return nil, err.Error()
 	}
-	files, err := bmgen.RenderFiles(b, new(bondmachine.Config), "iverilog")
+	conf := new(bondmachine.Config)
+	conf.CommentedVerilog = g.Commented
+	files, err := bmgen.RenderFiles(b, conf, "iverilog")
 	if err != nil {
 		return nil, err.Error()
 	}
@@ -263,6 +271,7 @@ func enumGraphs(shapes [][2]int, extIn, extOut int, emit func(graph)) {
 			if extIn+extOut > 0 {
 				emit(graph{Shapes: shapes, ExtIn: extIn, ExtOut: extOut, Links: append([]int{}, links...), IOFirst: true})
 			}
+			emit(graph{Shapes: shapes, ExtIn: extIn, ExtOut: extOut, Links: append([]int{}, links...), Commented: true})
 			return
 		}
 		for l := -1; l < nprod; l++ {
